@@ -89,3 +89,48 @@ Theorem C06_unauthorised_run_changes_nothing : forall kdf rs s rps s',
 Proof. intros kdf. exact (unauthorised_run_changes_nothing kdf life_ms). Qed.
 Print Assumptions C06_log_grows_only_by_authentication.
 Print Assumptions C06_unauthorised_run_changes_nothing.
+
+(* non-vacuity: a concrete instance of the handler on a two-user store in which the premises of the
+   theorems above are met: an admin session adds a user (the store changes), the same request under
+   an ordinary user's session is refused with the state untouched, and an expired admin session is
+   not authorisation *)
+Definition ex_kdf (h : hasher) (salt pw : bytes) : option bytes := Some (salt ++ pw).
+Definition ex_cfg : config := {| params := [(1, HArgon 1 8 1 32)]; default := 1 |}.
+Definition ex_or (ts : Z) : oracle := {| o_ts := ts; o_salt := repeat_byte 5 16; o_tmp := []; o_order := [] |}.
+Definition ex_dir : dirst :=
+  fst (add_user ex_kdf ex_cfg (fst (add_user ex_kdf ex_cfg [] (str "root") (str "rootpw") true (ex_or 1600000000)))
+                (str "alice") (str "alicepw") false (ex_or 1600000001)).
+Definition ex_wo (now_s : Z) (nonce : bytes) : woracle :=
+  {| wo_store := ex_or 1700000000; wo_now_ns := (now_s * 1000000000)%Z; wo_now_s := now_s;
+     wo_nonce := nonce; wo_ct := nonce ++ [1] |}.
+Definition ex_s0 : wstate := {| w_cfg := ex_cfg; w_dir := ex_dir; w_log := [] |}.
+Definition ex_login (s : wstate) (u p : bytes) (now : Z) (nonce : bytes) :=
+  handle ex_kdf life_ms s EAuth
+    (Some {| b_session := []; b_username := u; b_password := p; b_old := []; b_new := []; b_admin := false |})
+    (ex_wo now nonce).
+Definition ex_tok (r : wresp * wstate) : bytes := match r_session (fst r) with Some t => t | None => [] end.
+Definition ex_s1 := snd (ex_login ex_s0 (str "root") (str "rootpw") 1700000000 (repeat_byte 7 12)).
+Definition ex_admin_tok := ex_tok (ex_login ex_s0 (str "root") (str "rootpw") 1700000000 (repeat_byte 7 12)).
+Definition ex_s2 := snd (ex_login ex_s1 (str "alice") (str "alicepw") 1700000001 (repeat_byte 8 12)).
+Definition ex_user_tok := ex_tok (ex_login ex_s1 (str "alice") (str "alicepw") 1700000001 (repeat_byte 8 12)).
+Definition ex_add (tok : bytes) : body :=
+  {| b_session := tok; b_username := str "bob"; b_password := str "bobpw"; b_old := []; b_new := []; b_admin := false |}.
+
+Example C06_nonvacuous :
+  (* an admin session: authorised, 200, the store gains bob *)
+  authorised ex_kdf life_ms ex_s2 EAdd (ex_add ex_admin_tok) (ex_wo 1700000100 []) = true /\
+  r_status (fst (handle ex_kdf life_ms ex_s2 EAdd (Some (ex_add ex_admin_tok)) (ex_wo 1700000100 []))) = 200 /\
+  w_dir (snd (handle ex_kdf life_ms ex_s2 EAdd (Some (ex_add ex_admin_tok)) (ex_wo 1700000100 []))) <> w_dir ex_s2 /\
+  (* an ordinary user's session: not authorised, 403, nothing changes *)
+  authorised ex_kdf life_ms ex_s2 EAdd (ex_add ex_user_tok) (ex_wo 1700000100 []) = false /\
+  handle ex_kdf life_ms ex_s2 EAdd (Some (ex_add ex_user_tok)) (ex_wo 1700000100 []) = (resp 403, ex_s2) /\
+  (* the same admin token after its lifetime: 401, nothing changes *)
+  handle ex_kdf life_ms ex_s2 EAdd (Some (ex_add ex_admin_tok)) (ex_wo 1700000700 []) = (resp 401, ex_s2) /\
+  (* alice may change her own password with her session but not root's *)
+  authorised ex_kdf life_ms ex_s2 EUpdate
+    {| b_session := ex_user_tok; b_username := str "alice"; b_password := []; b_old := []; b_new := str "n"; b_admin := false |}
+    (ex_wo 1700000100 []) = true /\
+  authorised ex_kdf life_ms ex_s2 EUpdate
+    {| b_session := ex_user_tok; b_username := str "root"; b_password := []; b_old := []; b_new := str "n"; b_admin := false |}
+    (ex_wo 1700000100 []) = false.
+Proof. vm_compute. repeat split; try reflexivity; discriminate. Qed.
